@@ -45,7 +45,21 @@ type varResult struct {
 	dump  [32]byte
 	ident blockIdent
 	panic string
+
+	sec        [4][32]byte    // reference content of header / txs / evidence / commit
+	commit     [3]common.Hash // Data.Hash(), Evidence.Hash(), LastCommit.Hash() as the real code computes them
+	nilCommit  bool           // LastCommit removed: Block.Hash() is the empty hash "for safety", Commit.Hash() undefined
+	vbRejected bool           // ValidateBasic returned an error
 }
+
+const (
+	secHeader = 0
+	secTxs    = 1
+	secEv     = 2
+	secCommit = 3
+)
+
+var commitName = [3]string{"data-hash", "evidence-hash", "commit-hash"}
 
 func variantName(ps []pert, v variant) string {
 	var n []string
@@ -91,6 +105,15 @@ func evalVariant(base *types.Block, ps []pert, v variant, sizes []int) (res varR
 			refill(b)
 		}
 		res.ident = identOf(b, sizes)
+		res.nilCommit = b.LastCommit == nil
+		if b.Data != nil {
+			res.commit[0] = b.Data.Hash()
+		}
+		res.commit[1] = b.Evidence.Hash()
+		res.commit[2] = b.LastCommit.Hash()
+		if !res.nilCommit { // ValidateBasic dereferences the commit (hostile-input robustness is another property)
+			res.vbRejected = b.ValidateBasic() != nil
+		}
 	}); panicked {
 		res.panic = fmt.Sprint(val)
 		return
@@ -98,6 +121,7 @@ func evalVariant(base *types.Block, ps []pert, v variant, sizes []int) (res varR
 	if v.refill {
 		res.dump = dumpHash(b) // the recomputed header fields are content too
 	}
+	res.sec = dumpSections(b)
 	res.ok = true
 	return
 }
@@ -141,9 +165,11 @@ func diffSignature(a, b string) string {
 		return label
 	}
 	field := func(tok string) string {
-		if eq := strings.Index(tok, "="); eq >= 0 {
-			tok = tok[:eq]
+		eq := strings.Index(tok, "=")
+		if eq < 0 {
+			return "" // a line that is one value (commit.id)
 		}
+		tok = tok[:eq]
 		if br := strings.LastIndex(tok, "{"); br >= 0 {
 			tok = tok[br+1:]
 		}
@@ -169,9 +195,100 @@ func diffSignature(a, b string) string {
 			// votes inside evidence repeat field names: qualify by position of the enclosing vote
 			for i := range ta {
 				if ta[i] != tb[i] {
-					set[kind(label)+"."+field(ta[i])] = true
+					if f := field(ta[i]); f != "" {
+						set[kind(label)+"."+f] = true
+					} else {
+						set[kind(label)] = true
+					}
 				}
 			}
+		}
+	}
+	var out []string
+	for k := range set {
+		out = append(out, k)
+	}
+	sort.Strings(out)
+	return strings.Join(out, ",")
+}
+
+// ownerSet: for each commitment value the (few) distinct contents seen with it.
+type ownerRef struct {
+	content [32]byte
+	v       int // variant index, -1 = base
+}
+
+type ownerSet struct{ m map[string][]ownerRef }
+
+func newOwnerSet() *ownerSet { return &ownerSet{m: map[string][]ownerRef{}} }
+
+// claim records that content (variant v) has the commitment value key and returns the variants already seen with
+// the same value but other content.
+func (s *ownerSet) claim(key string, content [32]byte, v int) (conflicts []int) {
+	known := false
+	for _, o := range s.m[key] {
+		if o.content == content {
+			known = true
+		} else {
+			conflicts = append(conflicts, o.v)
+		}
+	}
+	if !known && len(s.m[key]) < 8 {
+		s.m[key] = append(s.m[key], ownerRef{content, v})
+	}
+	return
+}
+
+// minimalSignature names a collision by the smallest difference to any of the conflicting owners, so that a
+// second, unrelated perturbation applied alongside does not leak into the key.
+func minimalSignature(mine string, conflicts []int, dumpOf func(int) string, sectionOnly bool) (string, int) {
+	best, bestN, bestO := "", 1<<30, conflicts[0]
+	for _, o := range conflicts {
+		sig := coarseSignature(mine, dumpOf(o))
+		if n := strings.Count(sig, ",") + 1; sig != "" && (n < bestN || (n == bestN && sig < best)) {
+			best, bestN, bestO = sig, n, o
+		}
+	}
+	return best, bestO
+}
+
+// sectionOf returns one section of a dump (0 header, 1 transactions, 2 evidence, 3 commit) behind a neutral
+// first line, in the shape diffSignature parses.
+func sectionOf(d string, q int) string {
+	var b strings.Builder
+	b.WriteString("-\n")
+	for i, l := range strings.Split(strings.TrimSuffix(d, "\n"), "\n") {
+		k := secCommit
+		switch {
+		case i == 0:
+			k = secHeader
+		case strings.HasPrefix(l, "tx[") || l == "nil-data":
+			k = secTxs
+		case strings.HasPrefix(l, "ev["):
+			k = secEv
+		}
+		if k == q {
+			b.WriteString(l)
+			b.WriteByte('\n')
+		}
+	}
+	return b.String()
+}
+
+// coarseSignature: header differences by field, body differences by line kind only (tx, ev, pc, commit.id):
+// the root-cause part of the keys about Merkle commitments, where WHICH field of an item differs is irrelevant.
+func coarseSignature(a, b string) string {
+	set := map[string]bool{}
+	for _, it := range strings.Split(diffSignature(a, b), ",") {
+		switch {
+		case it == "":
+		case strings.HasPrefix(it, "header."), strings.HasPrefix(it, "commit.id"):
+			set[it] = true
+		default:
+			if i := strings.Index(it, "."); i >= 0 {
+				it = it[:i]
+			}
+			set[it] = true
 		}
 	}
 	var out []string
@@ -256,7 +373,26 @@ func checkIdentity(r *vk.Run, c blockCfg, sizes []int, pairs bool, st *identStat
 	owners := make([]map[string]owner, len(sizes))
 	byDump := map[[32]byte]int{} // dump -> first variant, for the equal-content direction
 	for k := range sizes {
-		owners[k] = map[string]owner{baseID.hash.String() + "|" + pshKey(baseID.parts[k]): {baseDump, -1}}
+		owners[k] = map[string]owner{pshKey(baseID.parts[k]): {baseDump, -1}}
+	}
+	// the stronger clauses (lead's reading): Block.Hash() alone, and every intermediate commitment, pins its content
+	baseRes := evalVariant(base, ps, variant{}, sizes)
+	if !baseRes.ok || baseRes.vbRejected {
+		vk.Fatalf("fixture: base block %v cannot be evaluated", c)
+	}
+	// two classes of blocks whose Block.Hash() must pin the content: H = header-only perturbations (same body, so
+	// the header differs), R = bodies with the dependent header fields recomputed; the base block is in both. A
+	// collision ACROSS the classes is not judged (a header whose EvidenceHash was zeroed equals the recomputed header
+	// of the block without evidence; the former fails ValidateBasic).
+	var hashOwners [2]*ownerSet
+	for q := range hashOwners {
+		hashOwners[q] = newOwnerSet()
+		hashOwners[q].claim(baseRes.ident.hash.String(), baseDump, -1)
+	}
+	var commitOwners [3]*ownerSet
+	for q := range commitOwners {
+		commitOwners[q] = newOwnerSet()
+		commitOwners[q].claim(baseRes.commit[q].String(), baseRes.sec[q+1], -1)
 	}
 	distinct := map[string]bool{}
 	vname := func(i int) string {
@@ -280,23 +416,71 @@ func checkIdentity(r *vk.Run, c blockCfg, sizes []int, pairs bool, st *identStat
 		if same {
 			local.sameContent++
 		}
+		dumpOf := func(j int) string {
+			if j < 0 {
+				return dump(base)
+			}
+			return dumpOfVariant(base, ps, vars[j])
+		}
+		// weaker clause: the part-set header alone (a hash of the serialization) differs for different content
 		for k, sz := range sizes {
-			key := res.ident.hash.String() + "|" + pshKey(res.ident.parts[k])
-			distinct[fmt.Sprintf("%d|%s", sz, key)] = true
+			key := pshKey(res.ident.parts[k])
+			distinct[fmt.Sprintf("%d|%s|%s", sz, res.ident.hash.String(), key)] = true
 			if o, ok := owners[k][key]; ok {
 				if o.dump != res.dump {
-					other := dump(base)
-					if o.v >= 0 {
-						other = dumpOfVariant(base, ps, vars[o.v])
-					}
-					sig := diffSignature(dumpOfVariant(base, ps, v), other)
-					r.Violation("identity-collision:"+sig,
-						fmt.Sprintf("block %v, part size %d: two blocks that differ in {%s} have the same Block.Hash() and the same part-set header: [%s] and [%s]", c, sz, sig, vname(i), vname(o.v)),
+					sig := diffSignature(dumpOf(i), dumpOf(o.v))
+					r.Violation("part-set-hash-collision:"+sig,
+						fmt.Sprintf("block %v, part size %d: two blocks that differ in {%s} have the same part-set header: [%s] and [%s]", c, sz, sig, vname(i), vname(o.v)),
 						replayIdentity(c, ps, v, sizes))
 				}
 			} else {
 				owners[k][key] = owner{res.dump, i}
 			}
+		}
+		// stronger clause 1: Block.Hash() (the header hash) pins the whole content of every block whose header was
+		// made for its body (header-only perturbations and bodies with the dependent header fields recomputed)
+		bodySame := res.sec[secTxs] == baseRes.sec[secTxs] && res.sec[secEv] == baseRes.sec[secEv] && res.sec[secCommit] == baseRes.sec[secCommit]
+		if (v.refill || bodySame) && !res.nilCommit {
+			class := 0
+			if v.refill {
+				class = 1
+			}
+			if conflicts := hashOwners[class].claim(res.ident.hash.String(), res.dump, i); len(conflicts) > 0 {
+				sig, o := minimalSignature(dumpOf(i), conflicts, dumpOf, false)
+				r.Violation("block-hash-collision:"+sig,
+					fmt.Sprintf("block %v: two blocks that differ in {%s} have the same Block.Hash() %s: [%s] and [%s]", c, sig, res.ident.hash.String(), vname(i), vname(o)),
+					replayIdentity(c, ps, v, sizes))
+			}
+		}
+		// stronger clause 2: each intermediate commitment pins its list
+		for q := 0; q < 3; q++ {
+			if q == 2 && res.nilCommit {
+				continue
+			}
+			if conflicts := commitOwners[q].claim(res.commit[q].String(), res.sec[q+1], i); len(conflicts) > 0 {
+				sec := q + 1
+				sig, o := minimalSignature(sectionOf(dumpOf(i), sec), conflicts, func(j int) string { return sectionOf(dumpOf(j), sec) }, true)
+				r.Violation(commitName[q]+"-collision:"+sig,
+					fmt.Sprintf("block %v: two different lists (they differ in {%s}) have the same %s %s: [%s] and [%s]", c, sig, commitName[q], res.commit[q].String(), vname(i), vname(o)),
+					replayIdentity(c, ps, v, sizes))
+			}
+		}
+		// stronger clause 3: a changed body under a header that was not made for it is rejected by ValidateBasic
+		headerTouched := false
+		for _, pi := range v.perts {
+			headerTouched = headerTouched || !ps[pi].body
+		}
+		if !v.refill && !headerTouched && !bodySame && !res.nilCommit && !res.vbRejected {
+			var sigs []string
+			for q := 1; q <= 3; q++ {
+				if sg := coarseSignature(sectionOf(dumpOf(i), q), sectionOf(dump(base), q)); sg != "" {
+					sigs = append(sigs, sg)
+				}
+			}
+			sig := strings.Join(sigs, ",")
+			r.Violation("validatebasic-accepts-perturbed-body:"+sig,
+				fmt.Sprintf("block %v: %s changes the body {%s}, the header fields that commit to it are not recomputed, and ValidateBasic accepts the block", c, vname(i), sig),
+				replayIdentity(c, ps, v, sizes))
 		}
 		// equal content => equal id (the id is a function of the content)
 		if j, ok := byDump[res.dump]; ok {
@@ -403,11 +587,11 @@ func crossCheck(r *vk.Run, c blockCfg, base *types.Block, ps []pert, vars []vari
 		for k, sz := range sizes {
 			bid := types.BlockID{Hash: id.hash, PartsHeader: id.parts[k]}
 			key := fmt.Sprintf("%s|%s", id.hash.String(), pshKey(id.parts[k]))
-			gk := fmt.Sprintf("%d|%s", sz, key)
+			gk := fmt.Sprintf("%d|%s", sz, pshKey(id.parts[k]))
 			if o, ok := globalIDs[gk]; ok {
 				if o.dump != d {
 					sig := diffSignature(rebuild(), o.rebuild())
-					r.Violation("identity-collision:"+sig, fmt.Sprintf("part size %d: [%s] and [%s] differ in {%s} and have one id", sz, desc, o.desc, sig), rep)
+					r.Violation("part-set-hash-collision:"+sig, fmt.Sprintf("part size %d: [%s] and [%s] differ in {%s} and have one part-set header", sz, desc, o.desc, sig), rep)
 				}
 			} else {
 				globalIDs[gk] = globalOwner{d, desc, rebuild}
